@@ -70,10 +70,11 @@ def r1(ctx):
             ctx.check(ok, R, f"{clsname}._connection_changed:send({'/'.join(names)}):only-when-connected", m, c, "requests are sent only on connected=True", "send reachable on connected=False")
         # refresh branch: state != CONNECTING
         st_tests = []
-        for t in cc.tests(lambda e: isinstance(e, ast.Compare) and dotted(e.left) == "self._state" and len(e.ops) == 1):
-            r = dotted(t.ast.comparators[0]) or ""
-            if r.endswith(".CONNECTING"):
-                st_tests.append((t, "true" if isinstance(t.ast.ops[0], ast.Eq) else "false"))
+        for t in cc.tests(lambda e: isinstance(e, ast.Compare) and len(e.ops) == 1 and isinstance(e.ops[0], (ast.Eq, ast.NotEq, ast.Is, ast.IsNot))):
+            te = cc.expand(t.ast, t)
+            l, r = dotted(te.left) or "", dotted(te.comparators[0]) or ""
+            if (l == "self._state" and r.endswith(".CONNECTING")) or (r == "self._state" and l.endswith(".CONNECTING")):
+                st_tests.append((t, "true" if isinstance(t.ast.ops[0], (ast.Eq, ast.Is)) else "false"))
         ctx.check(bool(st_tests), R, f"{clsname}._connection_changed:handshake-vs-refresh", m, cc.node, "the callback tests `self._state == CONNECTING` to tell the first connection from a reconnection", "no such test")
         if not st_tests:
             continue
